@@ -55,6 +55,22 @@ fn content_bytes(c: &Value) -> Vec<u8> {
         }
         return v;
     }
+    if let Some(chars) = c.get("text") {
+        // valid UTF-8: ASCII letters with multi-byte characters of w bytes placed at given offsets ([[offset, w]..])
+        let n = c["n"].as_u64().unwrap() as usize;
+        let mut v: Vec<u8> = (0..n).map(|i| b'a' + (i % 23) as u8).collect();
+        for ch in chars.as_array().unwrap() {
+            let (off, w) = (ch[0].as_u64().unwrap() as usize, ch[1].as_u64().unwrap() as usize);
+            let enc: &[u8] = match w {
+                2 => "\u{e9}".as_bytes(),
+                3 => "\u{20ac}".as_bytes(),
+                _ => "\u{1f600}".as_bytes(),
+            };
+            v[off..off + w].copy_from_slice(enc);
+        }
+        assert!(std::str::from_utf8(&v).is_ok());
+        return v;
+    }
     if let Some(seed) = c.get("gen") {
         gen_bytes(seed.as_u64().unwrap(), c["n"].as_u64().unwrap() as usize)
     } else {
@@ -260,6 +276,16 @@ fn run_op(root: &Path, o: &Value) -> (Value, Value) {
             )
         }
         "read" => wrap(guarded(|| fs::read(&p)), |v| content(&v)),
+        "read_string" => wrap(guarded(|| fs::read_to_string(&p)), |v| content(v.as_bytes())),
+        "fread_string" => wrap(
+            guarded(|| {
+                let mut f = fs::File::open(&p)?;
+                let mut t = String::new();
+                f.read_to_string(&mut t)?;
+                Ok(t)
+            }),
+            |v| content(v.as_bytes()),
+        ),
         "read_x" | "read_string_x" => {
             // a file OUTSIDE the tree (o.x, absolute), e.g. a sysfs binary attribute: st_size says N, every
             // read(2) hands out at most one page.  The observer's content goes into the shown operation (c).
@@ -674,6 +700,133 @@ fn bigread_mode(base: &str, len: u64, which_ops: &str) {
     let _ = std::fs::remove_dir_all(&root);
 }
 
+/// The same operations as an UNPRIVILEGED uid: root prepares twin trees (A for std::fs = the reference, B for
+/// tiny_std::fs) under a fresh 0755 directory in /var/tmp with entries owned by root and by `uid`; a forked
+/// child drops to `uid` and runs each scenario with both, printing {scenario, op, std, tiny, same}.
+fn unpriv_mode(uid: u32) {
+    use std::os::unix::fs::{chown, PermissionsExt};
+    let mut tmpl = *b"/var/tmp/verif-c14-XXXXXX\0";
+    assert!(!unsafe { libc::mkdtemp(tmpl.as_mut_ptr().cast()) }.is_null());
+    let base = PathBuf::from(std::str::from_utf8(&tmpl[..tmpl.len() - 1]).unwrap());
+    std::fs::set_permissions(&base, std::fs::Permissions::from_mode(0o755)).unwrap();
+    let own = |p: &Path| chown(p, Some(uid), Some(uid)).unwrap();
+    for twin in ["A", "B"] {
+        let t = base.join(twin);
+        std::fs::create_dir(&t).unwrap();
+        own(&t);
+        // a root-owned world-readable directory with entries of both owners
+        std::fs::create_dir(t.join("rootdir")).unwrap();
+        std::fs::write(t.join("rootdir/f1"), b"root file").unwrap();
+        std::fs::create_dir(t.join("rootdir/sub")).unwrap();
+        std::fs::write(t.join("rootdir/u1"), b"user file").unwrap();
+        own(&t.join("rootdir/u1"));
+        std::os::unix::fs::symlink("f1", t.join("rootdir/lnk")).unwrap();
+        // an own tree that holds a FOREIGN-owned empty directory inside an own-owned parent
+        for d in ["own", "own/mine", "own/deep", "own/deep/er"] {
+            std::fs::create_dir(t.join(d)).unwrap();
+            own(&t.join(d));
+        }
+        for f in ["own/file", "own/mine/x", "own/deep/er/y"] {
+            std::fs::write(t.join(f), b"x").unwrap();
+            own(&t.join(f));
+        }
+        std::fs::create_dir(t.join("own/foreign_empty")).unwrap();
+        std::fs::create_dir(t.join("own/deep/foreign_empty2")).unwrap();
+        // an entirely own tree
+        for d in ["own2", "own2/a"] {
+            std::fs::create_dir(t.join(d)).unwrap();
+            own(&t.join(d));
+        }
+        std::fs::write(t.join("own2/a/f"), b"y").unwrap();
+        own(&t.join("own2/a/f"));
+        for p in ["rootdir", "rootdir/sub", "own/foreign_empty", "own/deep/foreign_empty2"] {
+            std::fs::set_permissions(t.join(p), std::fs::Permissions::from_mode(0o755)).unwrap();
+        }
+    }
+    std::io::stdout().flush().unwrap();
+    let pid = unsafe { libc::fork() };
+    if pid == 0 {
+        unsafe {
+            assert_eq!(0, libc::setgroups(0, std::ptr::null()));
+            assert_eq!(0, libc::setresgid(uid, uid, uid));
+            assert_eq!(0, libc::setresuid(uid, uid, uid));
+        }
+        let listing_std = |p: &Path| -> Result<Vec<(String, String)>, String> {
+            let mut v = Vec::new();
+            for e in std::fs::read_dir(p).map_err(|e| e.to_string())? {
+                let e = e.map_err(|e| e.to_string())?;
+                let ft = e.file_type().map_err(|e| e.to_string())?;
+                let k = if ft.is_dir() { "d" } else if ft.is_symlink() { "l" } else if ft.is_file() { "f" } else { "?" };
+                v.push((e.file_name().to_string_lossy().into_owned(), k.to_string()));
+            }
+            v.sort();
+            Ok(v)
+        };
+        let listing_tiny = |p: &Path| -> Result<Vec<(String, String)>, String> {
+            let r = guarded(|| list_dir(&ustr(&p.display().to_string())));
+            match r {
+                Ok(Ok(v)) => {
+                    let mut v: Vec<(String, String)> = v.into_iter().filter(|(n, _)| n != "." && n != "..")
+                        .map(|(n, k)| (n, if matches!(k, "d" | "l" | "f") { k.to_string() } else { "?".to_string() })).collect();
+                    v.sort();
+                    Ok(v)
+                }
+                Ok(Err(e)) => Err(format!("{e}")),
+                Err(m) => Err(format!("panic: {m}")),
+            }
+        };
+        let emit = |scenario: &str, op: &str, std_ok: bool, tiny: &str, same: bool, note: String| {
+            println!("{}", json!({"ev": "unpriv", "scenario": scenario, "op": op, "std": if std_ok { "ok" } else { "err" }, "tiny": tiny, "same": same, "note": note}));
+        };
+        // listings: prepared root-owned directory, own directory, real system directories
+        let (a, b) = (base.join("A"), base.join("B"));
+        for (name, pa, pb) in [("root_owned_0755_dir", a.join("rootdir"), b.join("rootdir")), ("own_dir", a.join("own"), b.join("own")),
+                               ("/", PathBuf::from("/"), PathBuf::from("/")), ("/usr", PathBuf::from("/usr"), PathBuf::from("/usr")),
+                               ("/etc", PathBuf::from("/etc"), PathBuf::from("/etc"))] {
+            let s = listing_std(&pa);
+            let t = listing_tiny(&pb);
+            emit(name, "read_dir", s.is_ok(), if t.is_ok() { "ok" } else { "err" }, s.is_ok() && t.is_ok() && s == t,
+                 format!("std={:?} tiny={:?}", s.as_ref().map(Vec::len), t.as_ref().map(Vec::len).map_err(Clone::clone)));
+        }
+        // reading a root-owned 0644 file, metadata of a root-owned directory
+        let s = std::fs::read(a.join("rootdir/f1"));
+        let t = guarded(|| tiny_std::fs::read(&ustr(&b.join("rootdir/f1").display().to_string())));
+        emit("root_owned_0644_file", "read", s.is_ok(), if matches!(t, Ok(Ok(_))) { "ok" } else { "err" },
+             matches!((&s, &t), (Ok(x), Ok(Ok(y))) if x == y), String::new());
+        let s = std::fs::metadata(a.join("rootdir/sub")).map(|m| m.is_dir());
+        let t = guarded(|| tiny_std::fs::metadata(&ustr(&b.join("rootdir/sub").display().to_string())).map(|m| m.is_dir()));
+        emit("root_owned_dir", "metadata", s.is_ok(), if matches!(t, Ok(Ok(_))) { "ok" } else { "err" },
+             matches!((&s, &t), (Ok(x), Ok(Ok(y))) if x == y), String::new());
+        // remove_dir_all: entirely own tree; own tree holding foreign-owned EMPTY directories; a root-owned tree (std fails)
+        for (name, rel) in [("own_tree", "own2"), ("own_tree_with_foreign_empty_subdirs", "own"), ("root_owned_tree", "rootdir")] {
+            let s = std::fs::remove_dir_all(a.join(rel));
+            let t = guarded(|| tiny_std::fs::remove_dir_all(&ustr(&b.join(rel).display().to_string())));
+            let tiny = match &t {
+                Ok(Ok(())) => "ok".to_string(),
+                Ok(Err(e)) => format!("err: {e}"),
+                Err(m) => format!("panic: {m}"),
+            };
+            let same = a.join(rel).exists() == b.join(rel).exists();
+            emit(name, "remove_dir_all", s.is_ok(), if tiny == "ok" { "ok" } else { "err" }, same, tiny);
+        }
+        // create_dir_all + write + read_to_string below an own directory
+        let s = std::fs::create_dir_all(a.join("own2n/x/y")).and_then(|()| std::fs::write(a.join("own2n/x/y/f"), "t\u{e9}xt")).and_then(|()| std::fs::read_to_string(a.join("own2n/x/y/f")));
+        let t = guarded(|| {
+            tiny_std::fs::create_dir_all(&ustr(&b.join("own2n/x/y").display().to_string()))?;
+            tiny_std::fs::write(&ustr(&b.join("own2n/x/y/f").display().to_string()), "t\u{e9}xt".as_bytes())?;
+            tiny_std::fs::read_to_string(&ustr(&b.join("own2n/x/y/f").display().to_string()))
+        });
+        emit("new_tree_in_own_dir", "create_dir_all+write+read_to_string", s.is_ok(), if matches!(t, Ok(Ok(_))) { "ok" } else { "err" },
+             matches!((&s, &t), (Ok(x), Ok(Ok(y))) if x == y), String::new());
+        std::io::stdout().flush().unwrap();
+        unsafe { libc::_exit(0) };
+    }
+    let mut status = 0;
+    unsafe { libc::waitpid(pid, &mut status, 0) };
+    println!("{}", json!({"ev": "unpriv_end", "status": status}));
+    let _ = std::fs::remove_dir_all(&base);
+}
+
 fn main() {
     // panics of the code under test are data (quiet); panics of the driver itself are tool errors (loud)
     std::panic::set_hook(Box::new(|info| {
@@ -687,6 +840,7 @@ fn main() {
         "fanout" => fanout_mode(&a[2], &a[3]),
         "dirmatrix" => dirmatrix_mode(&a[2], &a[3]),
         "bigcopy" => bigcopy_mode(&a[2], a[3].parse().unwrap(), a[4].parse().unwrap()),
+        "unpriv" => unpriv_mode(a[2].parse().unwrap()),
         "bigread" => bigread_mode(&a[2], a[3].parse().unwrap(), a.get(4).map_or("both", String::as_str)),
         _ => panic!("usage"),
     }
